@@ -21,6 +21,16 @@ const (
 	verifDir = "/verif"
 )
 
+// outDir is where evidence/ and replays/ are written: /verif, unless VERIF_OUT_DIR
+// redirects them (used by sensitivity runs against mutated trees so that they never
+// overwrite the evidence of the real tree).
+func outDir() string {
+	if d := os.Getenv("VERIF_OUT_DIR"); d != "" {
+		return d
+	}
+	return verifDir
+}
+
 func envInt(name string, def int64) int64 {
 	if s := os.Getenv(name); s != "" {
 		if v, err := strconv.ParseInt(s, 10, 64); err == nil {
@@ -390,7 +400,7 @@ func runOrchestrator(t *testing.T, w World) int {
 	// classify violations against the committed known-findings list
 	known := loadKnown()
 	rev := treeRev()
-	os.MkdirAll(filepath.Join(verifDir, "replays"), 0o755)
+	os.MkdirAll(filepath.Join(outDir(), "replays"), 0o755)
 	exit := 0
 	seenKnown := map[string]bool{}
 	seenNew := map[string]bool{}
@@ -412,7 +422,7 @@ func runOrchestrator(t *testing.T, w World) int {
 			continue
 		}
 		seenNew[key] = true
-		path := filepath.Join(verifDir, "replays", fmt.Sprintf("%s-%d-%d-%d.json", prop, seed, v.Run, i))
+		path := filepath.Join(outDir(), "replays", fmt.Sprintf("%s-%d-%d-%d.json", prop, seed, v.Run, i))
 		b, _ := json.MarshalIndent(v, "", " ")
 		os.WriteFile(path, b, 0o644)
 		fmt.Printf("VIOLATION property=%s replay=%s\n", v.Property, path)
@@ -485,9 +495,9 @@ func runOrchestrator(t *testing.T, w World) int {
 		"wall_s":     wallS,
 		"violations": nviol,
 	}
-	os.MkdirAll(filepath.Join(verifDir, "evidence"), 0o755)
+	os.MkdirAll(filepath.Join(outDir(), "evidence"), 0o755)
 	b, _ := json.MarshalIndent(ev, "", " ")
-	if err := os.WriteFile(filepath.Join(verifDir, "evidence", prop+".json"), b, 0o644); err != nil {
+	if err := os.WriteFile(filepath.Join(outDir(), "evidence", prop+".json"), b, 0o644); err != nil {
 		fmt.Println("TROUBLE cannot write evidence:", err)
 		return 2
 	}
